@@ -685,7 +685,12 @@ func (e *SpecEnv) call(x *ast.CallExpr) T {
 			sfail("%s: sdk.%s not found", name, tn)
 		}
 		b := e.tr(x.Args[0])
-		return App(SBytes, "addr_string", IntLit(int64(e.ex.TypeID(gt))), b)
+		r := App(SBytes, "addr_string", IntLit(int64(e.ex.TypeID(gt))), b)
+		if name == "accstr" {
+			e.ex.side = append(e.ex.side, Implies(App(SBool, ">", App(SInt, "blen", b), IntLit(0)),
+				And(Not(App(SBool, "bech32err", r)), Eq(App(SBytes, "bech32addr", r), b))))
+		}
+		return r
 	case "bytelit":
 		// bytelit(n): the one-byte string with value n (n a constant)
 		t := e.wantInt(x.Args[0])
